@@ -454,7 +454,7 @@ def behaviours(doc, got, verdicts):
     return out
 
 
-def native_replay(cli_pre, cli_app, docs, received, verdicts):
+def native_replay(cli_pre, cli_app, docs, received, verdicts, flags=None):
     """build real documents for the scripts, run the real `scrut test -r json`, judge the run against the statement itself.
     returns (replayable, violated, why, observation)"""
     import json
@@ -527,8 +527,20 @@ def native_replay(cli_pre, cli_app, docs, received, verdicts):
         if cli_app:
             argv += ["--append-test-file-paths", "cliapp.md"]
         env = dict(os.environ, NO_COLOR="1")
+        if flags is not None:
+            # C18: a private $TMPDIR whose content is listed after the run, optionally --work-directory / --keep-temporary-directories
+            os.mkdir(os.path.join(tmp, "systmp"))
+            os.mkdir(os.path.join(tmp, "userwork"))
+            env["TMPDIR"] = os.path.join(tmp, "systmp")
+            if flags.get("keep"):
+                argv.append("--keep-temporary-directories")
+            if flags.get("user_dir"):
+                argv += ["--work-directory", os.path.join(tmp, "userwork")]
         r = subprocess.run(argv, cwd=tmp, stdout=subprocess.PIPE, stderr=subprocess.PIPE, text=True, timeout=120, env=env)
         obs = {"argv": argv[1:], "exit": r.returncode, "documents": {f: open(os.path.join(tmp, f)).read() for f in sorted(os.listdir(tmp)) if f.endswith(".md")}}
+        if flags is not None:
+            obs["left_in_TMPDIR"] = sorted(os.listdir(os.path.join(tmp, "systmp")))
+            obs["left_in_work_directory"] = sorted(os.listdir(os.path.join(tmp, "userwork"))) if os.path.isdir(os.path.join(tmp, "userwork")) else None
         outcomes = []
         try:
             for o in json.loads(r.stdout) if r.stdout.strip() else []:
